@@ -101,6 +101,63 @@ prop("C07", "bbs",
      BBS_BASE + ["a predictable but non-repeating, well-distributed generator is indistinguishable for this monitor"],
      (2000, 10000), (600, 3600))
 
+prop("C08", "bbs",
+     "one case = (entry point, content class, length / list class / count). Every call runs under catch_unwind in a build "
+     "with overflow-checks and debug-assertions on (cargo profile `checked`), with generator fuel 64 + 4*units armed (hook) "
+     "and a per-thread counting allocator; units = input bytes/32 + list elements (+ n/4 for update_signature). Oracle: "
+     "outcome is Ok or Err; no fuel exhaustion; peak allocation <= 256 KiB + 4 KiB*units + 64*input bytes. Workloads: "
+     "A every length 0..=1024 x 11 content classes (zeros, 0xff, random, honest encoding resized with zero / random padding, "
+     "tiled valid elements, flag bytes 0x80/0xa0/0xc0/0xe0, infinity) for PublicKey/SecretKey/PoKSignature/ZKPoK/Commitment "
+     "::from_bytes; F fixed-size decoders (Signature, BlindSignature, BlindFactor, message scalar, public-key coordinates); "
+     "B serde_json decoding of 7 types on truncated / substituted / type-confused / huge / deeply nested / random text; "
+     "C verify, verify_blind_sign, proof_gen, proof_verify, blind_proof_gen, blind_proof_verify with 13 hostile index-list "
+     "classes x message-count classes x L in {None,0,1,L,n-1,n,n+1,n-2,2^20,2^40,usize::MAX-1,usize::MAX}, signatures as "
+     "arbitrary octets; D blind_sign and deserialize_and_validate_commit with commitment octets of every length x generator "
+     "sets of 0,1,M,M+1,M+2 points; E update_signature with n in 0..=20(64),100,255,256,1000,4096,usize::MAX x positions. "
+     "A worker death (abort, stack overflow, OOM) is attributed to its last logged call and is a violation only if the "
+     "scenario dies again when re-run alone; otherwise inconclusive. Wall-clock never decides.",
+     BBS_BASE + ["update_signature's explicit count n is a legitimate size parameter: deriving H_i is Theta(i), so n is only "
+                 "swept up to 4096 plus the overflow boundary"],
+     (40000, 150000), (1800, 10800), profile="checked",
+     exhaustive_subspaces=["every input length 0..=1024 for the five variable-length decoders and for blind_sign"])
+
+
+def dead_C08(drv, pid, tier, seed, binary, err):
+    """The worker died (abort / stack overflow / OOM kill): find the last call without a ret in the flushed
+    event log, re-run that scenario alone; a second death is a violation, anything else inconclusive."""
+    import json as _json, os as _os
+    log = _os.path.join(drv.VERIF, "logs", f"{pid}.events.jsonl")
+    open_calls = {}
+    try:
+        for line in open(log, errors="replace"):
+            try:
+                e = _json.loads(line)
+            except Exception:
+                continue
+            if e.get("ev") == "call":
+                open_calls[e["n"]] = e
+            elif e.get("ev") == "ret":
+                open_calls.pop(e["n"], None)
+    except FileNotFoundError:
+        pass
+    if not open_calls or "watchdog" in (err or ""):
+        return drv.inconclusive(pid, tier, seed, "worker died without an attributable call: " + str(err))
+    suspects = sorted(open_calls.values(), key=lambda e: -e["n"])[:16]
+    for sus in suspects:
+        res, err2, _ = drv.run_harness(binary, pid, tier, seed, "bbs", ["--only-scenario", str(sus["scn"])],
+                                       timeout=1800, tag=".replay")
+        if res is None and "watchdog" not in (err2 or ""):
+            _os.makedirs(_os.path.join(drv.VERIF, "replays"), exist_ok=True)
+            path = _os.path.join("replays", f"{pid}-death-scn{sus['scn']}.json")
+            _json.dump({"property": pid, "tier": tier, "seed": seed, "scenario": sus["scn"], "signature":
+                        f"C08:process-death/{sus['op']}", "detail": {"last_call": sus, "first_error": err, "replay_error": err2}},
+                       open(_os.path.join(drv.VERIF, path), "w"), indent=1)
+            print(f"VIOLATION property={pid} replay={path} signature=C08:process-death/{sus['op']}")
+            drv.write_evidence(pid, tier, seed, {"events": sus["n"], "distinct_nontrivial": 2, "samples": [sus]}, 0.0, 1,
+                               inconclusive=["worker died; evidence covers only the events before the death"])
+            return 1
+    return drv.inconclusive(pid, tier, seed, "worker died once but no scenario reproduces the death alone: " + str(err))
+
 
 def post_C07(drv, res, binary, tier, seed):
     """Cross-process part of the history: the same fixed workload in N independent processes started
